@@ -373,7 +373,9 @@ class Tensor:
             if node not in visited_nodes:
                 visited_nodes.add(node)
                 for child in node._children:
-                    if child.requires_grad and child._grad is None:
+                    # leaves accumulate across calls; a gradient left on a non-leaf by
+                    # an earlier call must not be propagated again
+                    if child.requires_grad and (child._grad is None or not child.is_leaf):
                         child.zero_()
                     visit_node(child)
                 ordered_nodes.append(node)
